@@ -131,10 +131,9 @@ class PolytopeTensor(PointLikeTensor, ABC):
         if pdim == 1:
             return SegmentCollection.from_tensor(tensor)
         if pdim == 2:
-            if tensor.shape[-2] == 3:
-                # TODO: check if a collection can be returned here
+            if tensor.shape[-2] == 3 and tensor.free_indices == 1:
                 return Triangle(tensor, copy=False)
-            if tensor.shape[-2] == 4:
+            if tensor.shape[-2] == 4 and tensor.free_indices == 1:
                 try:
                     return Rectangle(tensor, copy=False)
                 except NotCoplanar:
